@@ -265,7 +265,7 @@ def serial_saturation(logic, funcs):
                     return Contract(ex, 'MaxWorlds.is_exceeded')
                 raise Outside(name)
         class Unserial(SymVal):
-            def sym_getitem(s, it, br): return GenList([WorldTok('w')])
+            def sym_getitem(s, it, br): return GenList([WorldTok('w'), WorldTok('u')])      # two successor-less worlds
         class SerialModel(R.RuleModel):
             INLINE = R.RuleModel.INLINE + ('_should_apply', '_get_targets')
             def sym_getattr(s, it, nm):
@@ -288,13 +288,22 @@ def serial_saturation(logic, funcs):
             if pr.kind == 'cut': continue                 # infeasible continuation, not an execution
             if pr.kind != 'return': reasons.append(f'exception {getattr(pr.value, "cls", type(pr.value)).__name__}'); continue
             targets, path = pr.value
-            if targets: offered += 1; continue
+            if targets:
+                offered += 1
+                served = []
+                for t in targets:
+                    nds = [nd for g in t['adds'] for nd in g]
+                    if len(nds) != 1 or repr(nds[0].props.get('world2')) != 'NEW' or repr(nds[0].props.get('world1')) not in ('w', 'u'):
+                        reasons.append(f'a serial application adds {nds!r}: one access node from a successor-less world to branch.new_world() is expected (the fresh world is fresh for one use)')
+                    else: served.append(repr(nds[0].props.get('world1')))
+                if sorted(served) != ['u', 'w'] and not any('serial application' in r_ for r_ in reasons): reasons.append(f'the targets serve {served}, the successor-less worlds are w and u')
+                continue
             if path.notes.get('maxworlds'): reasons.append('world limit reached (no flag node is added)')
             elif path.notes.get('last_is_self'):
                 # declining right after its own application is justified only when no successor-less world carries a sentence
                 # ... i.e. the branch was asked about every successor-less world (here: the one world w the helper lists) and holds no node at it
-                qs = [q for q in path.notes.get('queries', []) if q[0] == 'branch.has' and isinstance(q[1], dict) and any(getattr(v, 'name', None) == 'w' for v in q[1].values())]
-                if qs and all(q[2] is False for q in qs): reasons.append('world limit: n/a; no successor-less world carries a sentence (only the world this rule just created is unserved)')
+                qs = [q for q in path.notes.get('queries', []) if q[0] == 'branch.has' and isinstance(q[1], dict) and any(getattr(v, 'name', None) in ('w', 'u') for v in q[1].values())]
+                if len({getattr(v, 'name', None) for q in qs for v in q[1].values()} & {'w', 'u'}) == 2 and all(q[2] is False for q in qs): reasons.append('world limit: n/a; no successor-less world carries a sentence (only the world this rule just created is unserved)')
                 else: reasons.append('the last step was the serial rule on this branch (termination heuristic)')
             elif path.notes.get('maxworlds'): reasons.append('world limit reached (no flag node is added)')
             else: reasons.append('unexplained')
@@ -387,6 +396,7 @@ def run(ctx):
     from checks import index_ob
     index_ob.index_obligations(ctx, 'C02.index')
     index_ob.register_replayers(ctx, 'C02.index')
+    limit_flag_obligations(ctx, 'C02')
     selection.rule_target_obligations(ctx, 'C02')
     selection.next_obligations(ctx, 'C02')
     from checks import helpers_ob
@@ -400,6 +410,7 @@ def run(ctx):
         return c09.replay_identity_order(r)
     ctx.replayers['C02.identity.'] = _rid
     ctx.replayers['C02.saturation.'] = replay_saturation
+    ctx.replayers['C02.limit-flag.'] = replay_limit_flag
     ctx.replayers['C02.'] = lambda r: dict(reproduced=None, detail='see counterexample / meta')
 
 def replay(payload):
@@ -424,6 +435,111 @@ def modal_family():
         for ps in _it.combinations(prem, k):
             for c in concl:
                 yield c + ':' + ':'.join(ps)
+
+def limit_flag_obligations(ctx, prefix='C02'):
+    """the limit flags: a quantifier / modal rule that stops because the constant or world budget of the branch is exceeded releases the
+    node and marks THAT branch with a quit-flag node unless that same branch already carries one (so every truncated branch is
+    recognisable as limit-affected); with the budget not exceeded the rule body is asked.  NarrowQuantifierRule._get_targets and
+    the modal rules' _check_maxworlds, interpreted from source over branch tokens that know their origin."""
+    from pytableaux.proof import rules as PR, helpers as H, common as C
+    world = R.make_world()
+    class Br(SymVal):
+        def __init__(s, name, origin=None): s.name = name; s.origin = origin or s
+        def __repr__(s): return s.name
+        def sym_getattr(s, it, n):
+            if n == 'origin': return s.origin
+            raise Outside(f'Branch.{n}')
+        def sym_is(s, it, o): return s is o
+        def sym_truth(s, it): return True
+    def scenario(fi, fn, defcls, kind):
+        bad = []; cases = 0
+        for exceeded in (True, False):
+            for flagged_here in (True, False):
+                for flagged_origin in (True, False):
+                    cases += 1
+                    trunk = Br('trunk'); br = Br('branch', origin=trunk)
+                    released = []; flags = []; asked = []
+                    class Limit(SymVal):
+                        def sym_getattr(s, it, n):
+                            if n == 'is_exceeded': return Contract(lambda it, b, *a: (asked.append(b), exceeded)[1], 'limit.is_exceeded')
+                            if n == 'quit_flag':
+                                def qf(it, b): flags.append(b); return NodeVal(C.QuitFlagNode, dict(flag='quit', is_flag=True))
+                                return Contract(qf, 'limit.quit_flag')
+                            raise Outside(f'limit.{n}')
+                    class QF(SymVal):
+                        def sym_getattr(s, it, n):
+                            if n == 'get':
+                                return Contract(lambda it, b, d=None: ({id(br): flagged_here, id(trunk): flagged_origin}.get(id(b), False) or None), 'QuitFlag.get')
+                            raise Outside(f'QuitFlag.{n}')
+                        def sym_getitem(s, it, b): return {id(br): flagged_here, id(trunk): flagged_origin}.get(id(b), False) or None
+                    class Filt(SymVal):
+                        def sym_getattr(s, it, n):
+                            if n == 'release': return Contract(lambda it, nd, b: released.append((nd, b)), 'FilterHelper.release')
+                            raise Outside(f'FilterHelper.{n}')
+                    body = [LocalTarget('from-the-rule-body')]
+                    class RM(SymVal):
+                        def sym_getitem(s, it, h):
+                            if h in (H.MaxConsts, H.MaxWorlds): return Limit()
+                            if h is H.QuitFlag: return QF()
+                            if h is H.FilterHelper: return Filt()
+                            raise Outside(f'helper {h}')
+                        def sym_getattr(s, it, n):
+                            if n == '_get_node_targets': return Contract(lambda it, nd, b: GenList(list(body)), '_get_node_targets')
+                            raise Outside(f'rule.{n}')
+                        def sym_truth(s, it): return True
+                    node = NodeVal(C.SentenceWorldNode, dict(sentence=Atom('p'), world=WorldTok('w')))
+                    it = Interp(__import__('pyvc.interp', fromlist=['Path']).Path([]), world)
+                    r = it.call_source(fi, fn, defcls, [RM(), node, br], {})
+                    if kind == 'targets':
+                        out = it.iterate(r)
+                        flag_targets = [t for t in out if not isinstance(t, LocalTarget)]
+                    else:
+                        out = r; flag_targets = [r] if isinstance(r, dict) or hasattr(r, 'sym_getitem') and r not in (True, False) else []
+                    tag = f'exceeded={exceeded} flag on this branch={flagged_here} flag on its origin={flagged_origin}'
+                    if asked and any(b is not br for b in asked): bad.append(f'{tag}: the budget of {asked} is asked, not of the branch')
+                    if not exceeded:
+                        ok = (out == body) if kind == 'targets' else (out is False)
+                        if not ok or released or flags: bad.append(f'{tag}: budget not exceeded but the rule body is not what is offered ({out!r})')
+                        continue
+                    if released != [(node, br)]: bad.append(f'{tag}: released {released!r}')
+                    if flagged_here:
+                        if flags or flag_targets: bad.append(f'{tag}: a second quit flag is offered')
+                    else:
+                        if flags != [br] or len(flag_targets) != 1: bad.append(f'{tag}: the truncated branch gets no quit flag of its own ({len(flag_targets)} flag targets, quit_flag called for {flags!r})')
+        return bad, cases
+    class LocalTarget:
+        def __init__(s, n): s.n = n
+        def __repr__(s): return s.n
+    for qual, cls, name, kind in (('NarrowQuantifierRule._get_targets', PR.NarrowQuantifierRule, '_get_targets', 'targets'),
+                                  ('_check_maxworlds', None, '_check_maxworlds', 'check')):
+        if cls is None:
+            cls = next((c for c in vars(PR).values() if isinstance(c, type) and '_check_maxworlds' in c.__dict__), None)
+            if cls is None: ctx.add_result(Result(f'{prefix}.limit-flag._check_maxworlds', 'unknown', detail='no class defines _check_maxworlds')); continue
+        fn = cls.__dict__[name]; fn = getattr(fn, '__wrapped__', fn)
+        fi = source.of_function(fn); where = ctx.under_contract(fi)
+        oname = f'{prefix}.limit-flag.{cls.__name__}.{name}'
+        try:
+            bad, cases = scenario(fi, fn, cls, kind)
+            ctx.add(enum_ob(oname, not bad, where=where, cases=cases, cex=dict(bad=bad[:4]) if bad else None,
+                            clause='budget exceeded: the node is released and the branch itself gets one quit flag unless it already carries one; budget not exceeded: the rule body decides; the budget asked about is the branch\'s'))
+        except Outside as e:
+            ctx.add_result(Result(oname, 'unknown', detail=f'outside subset: {e}', where=where))
+
+def replay_limit_flag(r):
+    "a split before two quantifier chains: every open branch that stopped on the constant budget carries a quit flag"
+    from pytableaux.proof import Tableau
+    from pytableaux.lang import Argument
+    out = []
+    for L in ('CFOL', 'FDE', 'K3', 'K'):
+        try:
+            t = Tableau(L, Argument('b:AAVxSyFxyVxSyGxya'), max_steps=600).build()
+        except Exception as e: out.append(f'{L}: {type(e).__name__}: {e}'); continue
+        for b in t.open:
+            flagged = any(nd.get('is_flag') and nd.get('flag') == 'quit' for nd in b)
+            pending = [nd for nd in b if nd.get('sentence') is not None and not b.is_ticked(nd) and type(nd['sentence']).__name__ == 'Quantified']
+            consts = len(b.constants)
+            if not flagged and consts >= 4 and pending and len(b) > 12: out.append(f'{L}: open branch {b.id} holds {consts} constants and unticked quantified nodes but no quit flag')
+    return dict(reproduced=bool(out), detail='; '.join(out[:3]) or 'every truncated open branch carries a quit flag')
 
 def nested_family():
     "arguments whose worlds are created in several rounds (a possibility under a necessity under a possibility ...)"
